@@ -1,6 +1,8 @@
 package main
 
 import (
+	"os/exec"
+	"os"
 	"bytes"
 	"encoding/hex"
 	"encoding/base64"
@@ -459,7 +461,79 @@ func pbLine(t *traceWriter, body []byte, class string) {
 	t.line("PB %s class=%s => %d:%s:%s", hx(body), class, old, hxList(proof), hx(cp))
 }
 
+// feedbastionBodies asks the repository's own writer of the body format (cmd/feedbastion's bastionClient.Update, built
+// with a hook that captures what it posts) for the bodies of the given requests.
+func feedbastionBodies(reqs []fbReq) [][]byte {
+	bin := os.Getenv("VERIF_FEEDBASTION_BIN")
+	if bin == "" {
+		return nil
+	}
+	if _, err := os.Stat(bin); err != nil {
+		return nil
+	}
+	var in bytes.Buffer
+	for _, r := range reqs {
+		fmt.Fprintf(&in, "%d %s %s\n", r.old, hxList(r.proof), hx(r.cp))
+	}
+	cmd := exec.Command(bin)
+	cmd.Env = append(os.Environ(), "VERIF_FEEDBASTION_WRITER=1")
+	cmd.Stdin = &in
+	out, err := cmd.Output()
+	if err != nil {
+		return nil
+	}
+	var bodies [][]byte
+	for _, l := range strings.Split(strings.TrimSpace(string(out)), "\n") {
+		if l == "." {
+			bodies = append(bodies, []byte{})
+			continue
+		}
+		b, err := hex.DecodeString(l)
+		if err != nil {
+			return nil
+		}
+		bodies = append(bodies, b)
+	}
+	return bodies
+}
+
+type fbReq struct {
+	old   uint64
+	proof [][]byte
+	cp    []byte
+}
+
 func scenarioParseBody(t *traceWriter, rng *rand.Rand) {
+	// the repository's own writer first: what cmd/feedbastion posts must parse back to the proof and checkpoint it was
+	// given (it always writes "old 0": its view of the witness is "nothing yet")
+	var fb []fbReq
+	for i := 0; i < pick(150, 2000); i++ {
+		np := rng.Intn(6)
+		if i%10 == 0 {
+			np = 40 + rng.Intn(25)
+		}
+		var proof [][]byte
+		for j := 0; j < np; j++ {
+			proof = append(proof, randHash(rng, 1+rng.Intn(64)))
+		}
+		cp := signNote(cpText("fb.example/log", uint64(rng.Intn(100000)), randHash(rng, 32)), forgedSigner{"fb", 9, rng})
+		switch rng.Intn(5) {
+		case 0:
+			cp = randHash(rng, 1+rng.Intn(400))
+		case 1:
+			cp = []byte("origin\n5\nAAAA\n\n\n— sig line\n\n\n")
+		}
+		fb = append(fb, fbReq{uint64(rng.Intn(1000)), proof, cp})
+	}
+	if bodies := feedbastionBodies(fb); len(bodies) == len(fb) {
+		for i, r := range fb {
+			t.line("PBW old=0 proof=%s cp=%s body=%s", hxList(r.proof), hx(r.cp), hx(bodies[i]))
+			pbLine(t, bodies[i], "written")
+		}
+		t.line("FBW writer=feedbastion bodies=%d", len(bodies))
+	} else {
+		t.line("FBW writer=feedbastion bodies=-1")
+	}
 	n := pick(1500, 60000)
 	olds := []uint64{0, 1, 9, 10, 1 << 63, ^uint64(0)}
 	for i := 0; i < n; i++ {
